@@ -3,6 +3,7 @@ package main
 import (
 	"fmt"
 	"math/big"
+	"strings"
 
 	"verifharness/internal/items"
 	"verifharness/internal/rng"
@@ -109,11 +110,7 @@ func cmdModExpGas(args []string) error {
 			one("clamp", append(append(word(base), word(exp)...), word(big.NewInt(32))...))
 		}
 	}
-	out := ""
-	for _, l := range lines {
-		out += l + "\n"
-	}
-	if err := writeFile(c.out, "cases.txt", out); err != nil {
+	if err := writeFile(c.out, "cases.txt", strings.Join(lines, "\n")+"\n"); err != nil {
 		return err
 	}
 	if err := writeJSON(c.out, "cases.json", cases); err != nil {
